@@ -2,6 +2,8 @@
 (* Trace refinement of Headers: every header block a backend recorded must be one that the property allows   *)
 (* for the block the client wrote (Forward).  Events of one scenario:                                          *)
 (*   Reset, ClientSend(lines), BackendRecv(lines)*, ClientDone                                                *)
+(* BackendRecv carries the request id the backend read from the block; the harness attributes a block to the   *)
+(* current request unless the id is that of an earlier, finished request (event Stale).                         *)
 EXTENDS Headers, TraceLib
 CONSTANT KnownDeviations
 VARIABLE l
@@ -16,6 +18,8 @@ TReset == /\ Is("Reset")
 TSend  == Is("ClientSend") /\ Send(E.lines) /\ Consume
 TRecv  == Is("BackendRecv") /\ Forward(E.lines) /\ Consume
 \* the answer itself is not this property's business (a 4xx of the HTTP server included)
+\* a request of an EARLIER scenario (its client gave up) reached a backend only now: not this request's block
+TStale == Is("Stale") /\ act' = "Stale" /\ UNCHANGED <<sent, ups, phase>> /\ Consume
 TDone  == Is("ClientDone") /\ act' = "Done" /\ UNCHANGED <<sent, ups, phase>> /\ Consume
 
 (* Known findings (only if listed).  Both come from reading a repeated field with Header.Get (first line only)  *)
@@ -48,7 +52,7 @@ KF_C15 == /\ KnownDeviations # {}
                           \cup (IF \E n \in bad : LinesOf(sent, n)[1].els = <<>> THEN {"KF-C15-2"} ELSE {}))
 
 TraceInit == Init /\ l = 1
-TraceNext == TReset \/ TSend \/ TRecv \/ TDone \/ KF_C15
+TraceNext == TReset \/ TSend \/ TRecv \/ TStale \/ TDone \/ KF_C15
 TraceSpec == TraceInit /\ [][TraceNext]_tvars
 HW == HWMark(l)
 =============================================================================
